@@ -31,7 +31,9 @@ func lcgText(seed, n int) string {
 }
 
 func docs() []pdfw.Doc {
-	ln := func(f pdfw.FontKind, y float64, s string) pdfw.Line { return pdfw.Line{Font: f, Text: s, X: 72, Y: y, Size: 10} }
+	ln := func(f pdfw.FontKind, y float64, s string) pdfw.Line {
+		return pdfw.Line{Font: f, Text: s, X: 72, Y: y, Size: 10}
+	}
 	tiny := pdfw.Doc{Name: "tiny", Pages: []pdfw.Page{{Lines: []pdfw.Line{
 		ln(pdfw.Type1WinAnsi, 700, "Hello World"),
 		ln(pdfw.Type1WinAnsi, 670, "café €5 (x) \\ end"),
@@ -69,11 +71,11 @@ func normErr(err error) string {
 }
 
 func run(e *harness.Env) {
-	e.Rule = "5 logical documents x layout vectors over 10 dimensions (xref/objstm, filter chain, /Length placement, content split count x whitespace side x cut rotation, " +
-		"page-tree depth x location of inheritable keys, revisions, numbering/file order, EOL); quick: all vectors with <=2 non-default choices, thorough: the full product; " +
+	e.Rule = "5 logical documents x layout vectors over 11 dimensions (xref/objstm, filter chain, /Length placement, content split count x whitespace side x cut rotation, " +
+		"page-tree depth x location of inheritable keys, revisions, numbering/file order, EOL, indirect Resources/Font/MediaBox/Contents-array objects); quick: all vectors with <=3 non-default choices, thorough: the full product; " +
 		"distinct = distinct descriptors, non-trivial = at least one non-default layout choice"
 	e.Assumptions = []string{"internal/gen/pdfw emits well-formed PDF (self-validated offsets/lengths; ISO 32000-1 7.5)", "x/text charmaps for WinAnsi/MacRoman byte encodings"}
-	bound := 2
+	bound := 3
 	if e.Thorough() {
 		bound = -1
 	}
@@ -116,6 +118,7 @@ func run(e *harness.Env) {
 			lay.Revisions = c.PickI("rev", 1, 2, 3)
 			lay.Order = c.PickS("order", "asc", "desc")
 			lay.EOL = c.PickS("eol", "LF", "CRLF", "CR")
+			lay.Indirect = c.PickS("indirect", "n", "y") == "y"
 			if !c.Counted() {
 				return
 			}
